@@ -30,6 +30,7 @@ type rw struct {
 	Files      []string          `json:"files"`          // empty = all non-test files
 	SQL        bool              `json:"sql"`            // swap database/sql for the vsql shim (models the connection pool)
 	ConstSet   map[string]string `json:"const_override"` // package-level const name -> replacement literal (test-time parameter, e.g. hash iterations)
+	Extract    []extraction      `json:"extract"`
 	SyncKeep   []string          `json:"sync_keep"`      // struct type names whose sync.* fields stay REAL (leaf locks of caches: invisible to the scheduler)
 	RangeChans []string          `json:"range_chans"`    // printed expressions of channels ranged over (no type info available)
 	Points     []point           `json:"points"`         // named scheduling points inserted before a statement matching text
@@ -53,6 +54,7 @@ const repo = "/repo"
 const harness = "/verif/harness"
 
 var constHits map[string]int
+var extractHits = map[string]int{}
 
 func die(format string, a ...any) {
 	fmt.Printf("HARNESS-UNBOUND: overlaygen: "+format+"\n", a...)
@@ -145,6 +147,11 @@ func main() {
 		for f := range want {
 			if !seen[f] {
 				die("rewrite file %s/%s missing", pkg, f)
+			}
+		}
+		for _, ex := range r.Extract {
+			if extractHits[ex.Name] != 1 {
+				die("extraction %s in %s: %d matches, want 1", ex.Name, pkg, extractHits[ex.Name])
 			}
 		}
 		for name := range r.ConstSet {
